@@ -24,6 +24,9 @@ type Account struct {
 // State is a synthetic Ethereum world state (accounts with storage).
 type State struct {
 	Accounts map[Addr]*Account
+	// Aliens are state-trie leaves stored under keccak256 of a byte string that is NOT a 20-byte
+	// address (the trie itself does not care what was hashed); key = the raw bytes.
+	Aliens map[string]*Account
 }
 
 // NewState creates a state with the given contract account plus n random other accounts, each
@@ -57,7 +60,27 @@ func (s *State) Clone() *State {
 		}
 		c.Accounts[a] = n
 	}
+	for raw, acc := range s.Aliens {
+		n := &Account{Nonce: acc.Nonce, Balance: new(big.Int).Set(acc.Balance), CodeHash: acc.CodeHash, Storage: map[Hash][]byte{}}
+		for k, v := range acc.Storage {
+			n.Storage[k] = append([]byte{}, v...)
+		}
+		if c.Aliens == nil {
+			c.Aliens = map[string]*Account{}
+		}
+		c.Aliens[raw] = n
+	}
 	return c
+}
+
+// AddAlien creates a leaf under keccak256(raw) with an empty storage and returns its account.
+func (s *State) AddAlien(rng *rand.Rand, raw []byte) *Account {
+	if s.Aliens == nil {
+		s.Aliens = map[string]*Account{}
+	}
+	a := &Account{Nonce: uint64(rng.Intn(1000)), Balance: big.NewInt(int64(rng.Intn(1000000))), CodeHash: RandHash(rng), Storage: map[Hash][]byte{}}
+	s.Aliens[string(raw)] = a
+	return a
 }
 
 func newTrie() *trie.Trie {
@@ -101,6 +124,16 @@ func (s *State) accountTrie() *trie.Trie {
 	for _, a := range addrs {
 		acc := s.Accounts[a]
 		key := Keccak(a[:])
+		t.Update(key[:], AccountRLP(acc.Nonce, acc.Balance, Hash(acc.storageTrie().Hash()), acc.CodeHash))
+	}
+	raws := make([]string, 0, len(s.Aliens))
+	for raw := range s.Aliens {
+		raws = append(raws, raw)
+	}
+	sort.Strings(raws)
+	for _, raw := range raws {
+		acc := s.Aliens[raw]
+		key := Keccak([]byte(raw))
 		t.Update(key[:], AccountRLP(acc.Nonce, acc.Balance, Hash(acc.storageTrie().Hash()), acc.CodeHash))
 	}
 	return t
@@ -188,6 +221,35 @@ func (s *State) Prove(addr Addr, slot Hash) *Proof {
 	p.Nonce = fmt.Sprintf("0x%x", acc.Nonce)
 	p.CodeHash = "0x" + acc.CodeHash.Hex()
 	p.StorageHash = "0x" + Hash(st.Hash()).Hex()
+	var spl proofList
+	sk := Keccak(slot[:])
+	if err := st.Prove(sk[:], 0, &spl); err != nil {
+		panic(err)
+	}
+	val := "0x0"
+	if v := bytes.TrimLeft(acc.Storage[slot], "\x00"); len(v) > 0 {
+		val = fmt.Sprintf("0x%x", v)
+	}
+	p.StorageProofs = []StorageProof{{Key: "0x" + slot.Hex(), Value: val, Proof: hexList(spl)}}
+	return p
+}
+
+// ProveRaw is Prove for an alien leaf: the account proof is for the state-trie key keccak256(raw),
+// the "address" field of the answer is the raw byte string in hex.
+func (s *State) ProveRaw(raw []byte, slot Hash) *Proof {
+	acc := s.Aliens[string(raw)]
+	if acc == nil {
+		panic("no such alien leaf")
+	}
+	at := s.accountTrie()
+	var apl proofList
+	ak := Keccak(raw)
+	if err := at.Prove(ak[:], 0, &apl); err != nil {
+		panic(err)
+	}
+	st := acc.storageTrie()
+	p := &Proof{Address: fmt.Sprintf("0x%x", raw), AccountProof: hexList(apl), Balance: "0x" + acc.Balance.Text(16), Nonce: fmt.Sprintf("0x%x", acc.Nonce),
+		CodeHash: "0x" + acc.CodeHash.Hex(), StorageHash: "0x" + Hash(st.Hash()).Hex()}
 	var spl proofList
 	sk := Keccak(slot[:])
 	if err := st.Prove(sk[:], 0, &spl); err != nil {
